@@ -42,7 +42,7 @@ func c17Concurrent(run *rt.Run) {
 	nh := run.N(300, 20000)
 	for i := 0; i < nh && !run.Stop(); i++ {
 		cr := r.Fork()
-		e := &env{}
+		e := &env{slowNow: int32(cr.Intn(4))}
 		ys := &yieldSender{recSender: recSender{e}, yields: cr.Intn(4)}
 		if cr.Intn(3) == 0 {
 			ys.sleep = time.Duration(cr.Range(20, 300)) * time.Microsecond
